@@ -157,13 +157,14 @@ type c08Node struct {
 }
 
 type c08World struct {
-	bad    map[int]bool // block ids whose execution fails (bad state root)
-	keys   []crypto.PrivKey
-	bpids  []string
-	bpIdx  map[string]int
-	blocks map[int]*types.Block
-	idOf   map[string]int // block ID -> script id
-	sdb    *state.ChainStateDB
+	crashAt int          // 0, or the DEBUG_CHAIN_STOP point (2, 3) at which the next reorg crashes
+	bad     map[int]bool // block ids whose execution fails (bad state root)
+	keys    []crypto.PrivKey
+	bpids   []string
+	bpIdx   map[string]int
+	blocks  map[int]*types.Block
+	idOf    map[string]int // block ID -> script id
+	sdb     *state.ChainStateDB
 }
 
 func (w *c08World) newStatus(nd *c08Node) { w.newStatusReset(nd, 0) }
@@ -336,16 +337,58 @@ func (w *c08World) deliver(nd *c08Node, blk *types.Block, o *c08Obs) {
 		}
 		nd.st.Update(newBlocks[i]) // rollforward
 	}
-	// swapChainMapping
-	for no := root.BlockNo() + 1; no <= best.BlockNo(); no++ {
-		delete(nd.cdb.byNo, no)
+	swap := func() {
+		for no := root.BlockNo() + 1; no <= best.BlockNo(); no++ {
+			delete(nd.cdb.byNo, no)
+		}
+		for _, b := range newBlocks {
+			nd.cdb.byNo[b.BlockNo()] = b
+		}
+		nd.cdb.best = blk
+		nd.save()
 	}
-	for _, b := range newBlocks {
-		nd.cdb.byNo[b.BlockNo()] = b
+	if w.crashAt == 0 {
+		swap() // swapChainMapping + Save in one bulk
+		o.Res = "reorg"
+		return
 	}
-	nd.cdb.best = blk
-	nd.save()
-	o.Res = "reorg"
+	// Crash inside reorg.swapChain (TestDebugger stop points of chain/reorg.go):
+	//   2: the reorg marker is written, the chain mapping and the saved status are still the old ones;
+	//   3: swapChainMapping (new mapping + Save of the new status) is flushed, the marker is not deleted.
+	// At the next start ChainDB.Init calls marker.RecoverChainMapping (mapping back to the old chain,
+	// "required for LIB loading"), the consensus status is loaded from the DB, and ChainService.Recover
+	// redoes the reorganisation from the marker: NeedReorganization(root), Update(root),
+	// executeBlockReco (IsBlockValid, Update) for the new blocks, swapChainMapping + Save.
+	if w.crashAt == 3 {
+		swap()
+		// RecoverChainMapping
+		for _, b := range newBlocks {
+			delete(nd.cdb.byNo, b.BlockNo())
+		}
+		for b := best; b.BlockNo() > root.BlockNo(); b = nd.cdb.byHash[string(b.GetHeader().GetPrevBlockHash())] {
+			nd.cdb.byNo[b.BlockNo()] = b
+		}
+		nd.cdb.best = best
+	}
+	fresh := &c08Node{n: nd.n, self: nd.self, cdb: nd.cdb, sdb: nd.sdb}
+	w.newStatus(fresh)
+	bsLoader = fresh.loader
+	fresh.st.Lock()
+	fresh.st.load()
+	fresh.st.Unlock()
+	fresh.st.libState.bpid = fresh.self
+	*nd = *fresh
+	if !nd.st.NeedReorganization(root.BlockNo()) {
+		o.NeedReorg = 0
+		o.Res = "recover_veto"
+		return
+	}
+	nd.st.Update(root)
+	for i := len(newBlocks) - 1; i >= 0; i-- {
+		nd.st.Update(newBlocks[i])
+	}
+	swap()
+	o.Res = "recovered"
 }
 
 func TestVerifC08Engine(t *testing.T) {
@@ -449,6 +492,15 @@ func TestVerifC08Engine(t *testing.T) {
 				w.idOf[b.ID()] = id
 			case "BAD":
 				w.bad[geti(1)] = true
+			case "K":
+				// deliver; if it triggers a reorganisation, crash at stop point op[3] and recover
+				nd := nodes[geti(1)]
+				o := c08Obs{Op: "K", Node: geti(1)}
+				w.crashAt = geti(3)
+				w.deliver(nd, w.blocks[geti(2)], &o)
+				w.crashAt = 0
+				w.observe(nd, &o)
+				obs = append(obs, o)
 			case "D":
 				nd := nodes[geti(1)]
 				o := c08Obs{Op: "D", Node: geti(1)}
